@@ -85,10 +85,26 @@ def symvCol (A : Csc α) (x : Array α) (a : α) (p : α × Nat) : MErr (List (L
     if e.1 ≥ A.n then throw (.panic "UB: y.get_unchecked_mut(row)")
     pure (symvEntry a p.2 p.1 e xr))
 
+/-- the `b*y` part of `_csc_symv_unsafe` (since /repo 1706c1f): as in gemv, `y` is not
+read when `b == 0` (it may hold NaN/Inf), otherwise it is scaled -/
+def symvB (b : α) (y : Array α) : Array α :=
+  if b == 0 then y.map (fun _ => 0) else Vec.scale y b
+
 /-- `_csc_symv_unsafe`: `y ← a·sym(A)·x + b·y`, `A` upper triangular.  The Rust code
 uses unchecked indexing: a row index `≥ n` is undefined behaviour there (`.panic "UB"`
-here; never generated). -/
+here; never generated).  (Before /repo 1706c1f the prologue was `y.scale(b)` for every `b`,
+so a NaN in `y` survived `b = 0`: `symvOld` below.) -/
 def symv (A : Csc α) (y x : Array α) (a b : α) : MErr (Array α) :=
+  let y := symvB b y
+  if x.size != A.n then throw (.panic "assert x.len == A.n") else
+  if y.size != A.n then throw (.panic "assert y.len == A.n") else
+  if A.n != A.m then throw (.panic "assert A.n == A.m") else
+  match x.toList.zipIdx.mapM (symvCol A x a) with
+  | .error e => .error e
+  | .ok terms => scatter (fun yi t => yi + t) y terms.flatten.flatten
+
+/-- `_csc_symv_unsafe` before /repo 1706c1f (`y.scale(b)` unconditionally) -/
+def symvOld (A : Csc α) (y x : Array α) (a b : α) : MErr (Array α) :=
   let y := Vec.scale y b
   if x.size != A.n then throw (.panic "assert x.len == A.n") else
   if y.size != A.n then throw (.panic "assert y.len == A.n") else
